@@ -316,3 +316,42 @@ func g5BlockIndex(hash []byte) int {
 	}
 	return -1
 }
+
+// ---- two library endpoints over one pipe (A = initiator/client, B = responder/server)
+
+type g5LibPair struct {
+	connA, connB net.Conn
+	muxA, muxB   *muxer.Muxer
+	errA, errB   chan error
+}
+
+func newG5LibPair() *g5LibPair {
+	a, b := net.Pipe()
+	l := &g5LibPair{connA: a, connB: b, errA: make(chan error, 10), errB: make(chan error, 10)}
+	l.muxA = muxer.New(a)
+	l.muxB = muxer.New(b)
+	l.muxA.Start()
+	l.muxB.Start()
+	return l
+}
+
+func (l *g5LibPair) optsA(mode protocol.ProtocolMode) protocol.ProtocolOptions {
+	return protocol.ProtocolOptions{
+		ConnectionId: connection.ConnectionId{LocalAddr: g5Addr("A"), RemoteAddr: g5Addr("B")},
+		Muxer:        l.muxA, ErrorChan: l.errA, Mode: mode,
+	}
+}
+
+func (l *g5LibPair) optsB(mode protocol.ProtocolMode) protocol.ProtocolOptions {
+	return protocol.ProtocolOptions{
+		ConnectionId: connection.ConnectionId{LocalAddr: g5Addr("B"), RemoteAddr: g5Addr("A")},
+		Muxer:        l.muxB, ErrorChan: l.errB, Mode: mode,
+	}
+}
+
+func (l *g5LibPair) close() {
+	l.muxA.Stop()
+	l.muxB.Stop()
+	_ = l.connA.Close()
+	_ = l.connB.Close()
+}
